@@ -375,7 +375,43 @@ def run_step(head, end):
         ("C05.invocation_recorded_for_this_period", Implies(grew, cb[ca.len] == t)),
         ("C05.earlier_invocations_untouched", AllIdx(0, ca.len, lambda j: cb[j] == ca[j])),
         ("C05.nothing_owed_afterwards", Not(b._resolve)),
-    ] + ledger_step(head, end)
+    ] + ledger_step(head, end) + pilots_step(head, end, grew)
+
+
+def pilots_step(head, end, invoked):
+    """C04, one period: the pilot every station holds at the end of period t is column t of the pilot matrix; if the scheduler was invoked the matrix
+    is the old one overlaid with the submitted schedule (the whole-matrix postcondition of _update_schedules, widened by zero columns only);
+    if it was not invoked no recorded pilot changes and new columns are 0 (so periods no schedule covers have pilot 0)."""
+    from pyvc.symex import Unsupported as _Uns
+    a, b = head.self, end.self
+    net = a.network
+    t = a._iteration
+    P0, P1 = a.pilot_signals, b.pilot_signals
+    n = net._EVSEs.keys.len
+    p, j = z3.Int("ps!p"), z3.Int("ps!j")
+    in_net = z3.And(p >= 0, p < n)
+    pilot_of = lambda st_, pp: st_.field_of(evse_at(st_, net, pp), "BaseEVSE", "_current_pilot")
+    out = [
+        ("C04.every_station_holds_column_t_of_the_pilot_matrix", FA([p], z3.Implies(in_net, pilot_of(end, p) == P1[p, t]), patterns=[evse_at(end, net, p)])),
+        ("C04.matrix_covers_the_period_and_never_shrinks", And(P1.rows == P0.rows, P1.cols >= P0.cols, P1.cols > t)),
+        ("C04.without_an_invocation_recorded_pilots_stay_and_new_columns_are_zero",
+         Implies(Not(invoked), FA([p, j], z3.Implies(z3.And(in_net, j >= 0, j < P1.cols), P1[p, j] == z3.If(j < P0.cols, P0[p, j], z3.RealVal(0)))))),
+    ]
+    try:
+        m = end.new_schedule
+    except _Uns:
+        return out
+    # the schedule submitted in this period (local `new_schedule` of the run loop)
+    ids = net._EVSEs.keys
+    sidp = z3.Select(ids.v.arrs[0], p)
+    L = sched_len_at(m, m.keys[0])
+    in_block = z3.And(j >= t, j < t + L)
+    cell = z3.If(in_block, z3.If(z3.Select(m._v.dom, sidp), sched_val_at(m, sidp, j - t), z3.RealVal(0)), z3.If(j < P0.cols, P0[p, j], z3.RealVal(0)))
+    out.append(("C04.with_an_invocation_the_matrix_is_the_old_one_overlaid_with_the_submitted_schedule",
+                Implies(And(invoked, m.keys.len > 0), FA([p, j], z3.Implies(z3.And(in_net, j >= 0, j < P1.cols), P1[p, j] == cell)))))
+    out.append(("C04.an_empty_schedule_changes_no_recorded_pilot",
+                Implies(And(invoked, m.keys.len == 0), FA([p, j], z3.Implies(z3.And(in_net, j >= 0, j < P1.cols), P1[p, j] == z3.If(j < P0.cols, P0[p, j], z3.RealVal(0)))))))
+    return out
 
 
 def ledger_step(head, end):
